@@ -10,7 +10,7 @@ ID = 'C09'
 LEVEL = 'exploration'
 SALTS = 8
 GUARD_STEPS = 250
-RULE = ('each family = one generated argument in one logic (stratified over the 57), proved under all 8 lexical-hash salts (one '
+RULE = ('each family = one generated argument in one logic (stratified over the 57), proved under 2 (quick) / all 8 (thorough) lexical-hash salts (one '
         'fresh interpreter each) x per salt 4 (quick) / 10 (thorough) configurations drawn from {group optimisation on/off} x '
         '{rank optimisation on/off} x {build(), step() loop, stepiter()} x seeded tie-break orders x premise permutations and '
         'duplications; one schedule per run is executed in all three drive modes and must give identical histories. A family may '
@@ -21,12 +21,17 @@ ASSUMPTIONS = [
     'a family conflict is attributed to a root cause with the reference semantics R1 (see sim/proofcheck.py explain_conflict)',
 ]
 
+def salts(tier):
+    # the lexical salt only permutes sets of constants / sentences: 2 salts in quick buy 4x the families
+    return 2 if tier == 'quick' else 8
+
 def plan(tier):
     return dict(runs=1280 if tier == 'quick' else 48000, timeout=300 if tier == 'quick' else 3600)
 
 def family_case(ctx_seed, fam):
     rng = seeds.rng(ctx_seed, ID, 'family', fam)
-    logic = proofwl.LOGICS[fam % len(proofwl.LOGICS)]
+    wl = proofwl.weighted_logics()
+    logic = wl[fam % len(wl)]
     prems, conc = proofwl.gen_case(rng, logic)
     return logic, prems, conc
 
@@ -96,7 +101,7 @@ def brief(c):
     return 'opts=%s order=%s drive=%s salt-local premises=%s' % ({k: v for k, v in c.opts.items() if k.startswith('is_') and k != 'is_build_models'}, c.order_seed, c.drive, [lexgen.polish(p) for p in c.prems])
 
 def run(ctx):
-    fam = ctx.index // SALTS
+    fam = ctx.index // salts(ctx.tier)
     logic, prems, conc = family_case(ctx.seed, fam)
     cfgs = make_cfgs(ctx, logic, prems, conc)
     out = judge_run(ctx, cfgs)
